@@ -33,6 +33,8 @@ const INLINE: &[(&str, &str, u32)] = &[
     ("unit on cookware without %", "#zz{1 kg}", U),
     ("timer without unit", "~zz{5}", 0),
     ("nameless timer without unit", "~{5}", 0),
+    ("timer with a separator but no unit", "~zz{5%}", 0),
+    ("nameless timer with a padded separator but no unit", "~{45 % }", 0),
     ("timer without duration", "~zz", T),
     ("timer with empty braces", "~zz{}", T),
     ("timer with neither name nor duration", "~{}", 0),
